@@ -253,6 +253,12 @@ func c17History(c *core.Ctx, r *core.Rand, idx int) error {
 			has, err := storage.Has(ctx, env.store, key)
 			_, want := model[key]
 			hist = append(hist, "Has("+hx([]byte(key))+")")
+			if err != nil && !has && !want && env.base != "" && len(b32NoPad(key)) > 200 {
+				// a key too long for a file name (a put of it is refused): "not there, and here is why" is a faithful answer
+				c.Dist("has-refused-overlong-key:" + env.name)
+				hist[len(hist)-1] += "=refused"
+				continue
+			}
 			if err != nil || has != want {
 				if !(env.base != "" && key == "") { // the empty key names the shard directory itself
 					fail("C17/has-wrong", fmt.Sprint(has, err), fmt.Sprint(want), "")
